@@ -245,18 +245,23 @@ func propFinal(c harness.Case) harness.Result {
 	}
 	nt, labels := interesting(x)
 	res := harness.Result{Nontrivial: nt, Labels: labels}
-	sa, sb := cmutil.Safe(x), cmutil.Safe(append(append([]byte(nil), x...), ending...))
-	na, err := htmlnorm.NormalizeString(mapLE(sa), nil)
-	if err != nil {
-		// the output is not in the renderer's own vocabulary: that is C07's
-		// business; there is no sound "insignificant whitespace" form to compare
-		res.Labels = append(res.Labels, "skipped_untokenizable_output")
-		res.Nontrivial = false
-		return res
-	}
-	nb, err := htmlnorm.NormalizeString(mapLE(sb), nil)
-	if err != nil || na != nb {
-		res.Err = fmt.Errorf("appending %q to %q changes the safe-mode rendering:\n without: %q\n with:    %q", ending, x, sa, sb)
+	// under every soft-break behaviour (the line ending that ends the input is
+	// never a soft break: it ends a block)
+	for _, soft := range []cm.SoftBreakBehavior{cm.SoftBreakPreserve, cm.SoftBreakSpace, cm.SoftBreakHarden} {
+		sa, sb := cmutil.SafeSoft(x, soft), cmutil.SafeSoft(append(append([]byte(nil), x...), ending...), soft)
+		na, err := htmlnorm.NormalizeString(mapLE(sa), nil)
+		if err != nil {
+			// the output is not in the renderer's own vocabulary: that is C07's
+			// business; there is no sound "insignificant whitespace" form to compare
+			res.Labels = append(res.Labels, "skipped_untokenizable_output")
+			res.Nontrivial = false
+			return res
+		}
+		nb, err := htmlnorm.NormalizeString(mapLE(sb), nil)
+		if err != nil || na != nb {
+			res.Err = fmt.Errorf("appending %q to %q changes the safe-mode rendering (soft breaks: %v):\n without: %q\n with:    %q", ending, x, soft, sa, sb)
+			return res
+		}
 	}
 	return res
 }
